@@ -73,6 +73,7 @@ int main(int argc, char** argv) {
 			ccm.row(a[0], 0, a[1], st.data());
 			std::cout << " ret=";
 			for (long j = 0; j < a[1]; ++j) { if (j) std::cout << ","; std::cout << (long long)st[j]; }
+			for (std::size_t j = a[1]; j < n + 1; ++j) if (st[j] != -1.0) { std::cout << " !OOB"; break; }   // wrote past the requested range
 		} else if (cmd == "F") cm->flipColumnsAndRows(a[0], a[1]);
 		else if (cmd == "M") cm->setMaxCachedIndex(a[0]);
 		else if (cmd == "X") cm->clear();
